@@ -512,7 +512,7 @@ def xml_mutants(rng, doc, n):
         d = copy.deepcopy(doc)
         els = [e for e in d.iter() if isinstance(e.tag, str)]
         lv = [e for e in els if len(e) == 0]
-        op = rng.choice(('leaf', 'leaf', 'leaf', 'attr', 'delete', 'dup', 'unknown', 'nest', 'text_in_complex', 'rename', 'nil', 'reorder', 'empty',
+        op = rng.choice(('leaf', 'leaf', 'leaf', 'attr', 'attr', 'delete', 'dup', 'unknown', 'nest', 'text_in_complex', 'rename', 'nil', 'reorder', 'empty',
                          'entity', 'entity', 'pi', 'fault_body', 'href'))
         try:
             if op == 'leaf' and lv:
@@ -522,6 +522,11 @@ def xml_mutants(rng, doc, n):
                 for k in list(e.attrib)[:1]:
                     e.set(k, rng.choice(HOSTILE))
                 e.set('junk', rng.choice(HOSTILE))
+                # an attribute that bears the name of a member which is not an attribute (a child of this element, or of any other)
+                kids = [x for x in (list(e) or els[1:]) if isinstance(x.tag, str)]
+                if kids and rng.random() < .6:
+                    k = rng.choice(kids)
+                    e.set(rng.choice((etree.QName(k).localname, k.tag)), rng.choice(HOSTILE + [k.text or 'x']))
             elif op == 'delete' and len(els) > 1:
                 e = rng.choice(els[1:])
                 e.getparent().remove(e)
